@@ -2,13 +2,18 @@ package main
 
 // C14 (c): randomised concurrent histories for TraceProperty.tla.
 //
-// Per history: a fresh Bomb object, two subscribers (own connections), 2-3
-// remote clients (own connections) and 1-2 goroutines of the service using the
-// generated Update<Prop> helper.  Every call is logged as inv/res around the
-// generated API, every value delivered by the generated Subscribe<Prop> channel
-// as ev, all stamped by one mutex-protected log (the order of the file is the
-// real-time order).  Random pauses at the validate/save/notify gates widen the
-// windows between the three steps.
+// Per history: a fresh Bomb object, 2-3 remote clients (own connections), 1-2
+// goroutines of the service using the generated Update<Prop> helper and three
+// subscribers on their own connections: s1 stays subscribed through the
+// generated Subscribe<Prop> channel; s2 and s3 are raw subscribers
+// (registerEvent / unregisterEvent, events read from a tap inside the
+// connection's dispatch) that subscribe, unsubscribe and abruptly disconnect at
+// random moments.  Every call is logged as inv/res, every received value as ev,
+// a disconnection as close (before the connection is closed) and gone (from the
+// hook event `remove` of that user, emitted under signalsMutex), all stamped by
+// one mutex-protected log (the order of the file is the real-time order).
+// Random pauses at the validate/save/notify gates and before every single send
+// of an emission (signal.update.send) widen the windows.
 
 import (
 	"math/rand"
@@ -37,6 +42,64 @@ func (h *histLog) put(v map[string]interface{}) {
 	h.mu.Unlock()
 }
 
+// churner is a raw subscriber whose events are logged by pump (called by a
+// poller and at the synchronisation points).
+type churner struct {
+	rawSub
+	mu   sync.Mutex
+	log  *histLog
+	gone chan struct{}
+	dead bool
+}
+
+func (c *churner) pump() {
+	c.mu.Lock()
+	if c.c != nil && c.tap != nil {
+		for _, p := range c.tap.drain() {
+			c.log.put(map[string]interface{}{"k": "ev", "s": c.name, "bytes": ints(p)})
+		}
+	}
+	c.mu.Unlock()
+}
+
+func (c *churner) subscribe(id uint32) {
+	c.log.put(map[string]interface{}{"k": "inv", "c": c.name, "op": opRec("sub", 0, "", c.name)})
+	if err := c.register(id); err != nil {
+		hlib.Fatal("registerEvent %s: %v", c.name, err)
+	}
+	c.reg = true
+	c.log.put(map[string]interface{}{"k": "res", "c": c.name, "r": retRec(retJ{})})
+}
+
+func (c *churner) unsubscribe(id uint32) {
+	c.log.put(map[string]interface{}{"k": "inv", "c": c.name, "op": opRec("unsub", 0, "", c.name)})
+	if err := c.unregister(id); err != nil {
+		hlib.Fatal("unregisterEvent %s: %v", c.name, err)
+	}
+	c.reg = false
+	c.log.put(map[string]interface{}{"k": "res", "c": c.name, "r": retRec(retJ{})})
+}
+
+// disconnect closes the connection abruptly and waits for the server to forget
+// the registration (the sink logs "gone").
+func (c *churner) disconnect(closing *sync.Map) {
+	c.pump()
+	c.gone = make(chan struct{})
+	closing.Store(c.uid, c)
+	c.log.put(map[string]interface{}{"k": "close", "s": c.name})
+	c.mu.Lock()
+	c.tap.close()
+	c.drop()
+	c.mu.Unlock()
+	c.reg = false
+	select {
+	case <-c.gone:
+	case <-time.After(TBound):
+		c.dead = true // stays "closing" in the trace: no further move
+	}
+	closing.Delete(c.uid)
+}
+
 var recWrong = []struct {
 	kind, sig string
 	bytes     []byte
@@ -62,7 +125,23 @@ func c14Record(args []string) {
 	w := newWorld()
 	log := &histLog{tl: &traceLog{f}}
 	clients := []*conn{w.dial(), w.dial(), w.dial()}
-	subConns := map[string]*conn{"s1": w.dial(), "s2": w.dial()}
+	subConns := map[string]*conn{"s1": w.dial()}
+	churners := []*churner{{rawSub: rawSub{name: "s2"}, log: log}, {rawSub: rawSub{name: "s3"}, log: log}}
+	var closing sync.Map // uid -> *churner being disconnected
+	vhook.SetSink(func(e vhook.Event) {
+		if e.Comp == "signal" && e.Ev == "remove" {
+			if u, ok := kvGet(e.KV, "user").(uint64); ok {
+				if c, ok := closing.Load(u); ok {
+					ch := c.(*churner)
+					log.put(map[string]interface{}{"k": "gone", "s": ch.name})
+					close(ch.gone)
+				}
+			}
+		}
+	})
+	defer vhook.SetSink(nil)
+	var nextUID uint64 = 7000
+	moves, closes := 0, 0
 	res := &hlib.Result{}
 	// random pauses at the gates
 	var gateRng uint64 = uint64(seed)*2654435761 + 1
@@ -79,13 +158,28 @@ func c14Record(args []string) {
 	for _, p := range gatePoints {
 		vhook.SetGate(p, pause)
 	}
+	// between two sends of one emission: sometimes long enough for a
+	// (un)registration or a disconnection to land
+	vhook.SetGate("signal.update.send", func(kv ...interface{}) {
+		x := atomic.AddUint64(&gateRng, 0x9E3779B97F4A7C15)
+		x ^= x >> 29
+		switch x % 4 {
+		case 0:
+			runtime.Gosched()
+		case 1:
+			time.Sleep(time.Duration(x>>8%150) * time.Microsecond)
+		case 2:
+			time.Sleep(time.Duration(200+x>>8%600) * time.Microsecond)
+		}
+	})
 	var nextVal int32
+	var movesA, closesA int32
 	ops, lost := 0, 0
 	for r := 0; r < rounds; r++ {
 		id, impl := w.addBomb()
 		rng := rand.New(rand.NewSource(seed*1000003 + int64(r)))
 		subs := map[string]*subscriber{}
-		for _, n := range []string{"s1", "s2"} {
+		for _, n := range []string{"s1"} {
 			c := subConns[n]
 			s := &subscriber{name: n, conn: c, bomb: c.bomb(w, id)}
 			s.tap = c.tap(w.sid, id, delayID)
@@ -100,11 +194,70 @@ func c14Record(args []string) {
 			log.put(map[string]interface{}{"k": "res", "c": n, "r": retRec(retJ{})})
 			subs[n] = s
 		}
+		// the raw subscribers: registered now (in a random order relative to each
+		// other) or joining later
+		order := []int{0, 1}
+		if rng.Intn(2) == 0 {
+			order = []int{1, 0}
+		}
+		for _, i := range order {
+			ch := churners[i]
+			nextUID++
+			ch.dead = false
+			ch.mu.Lock()
+			ch.attach(w, id, nextUID)
+			ch.mu.Unlock()
+			if rng.Intn(4) > 0 {
+				ch.subscribe(id)
+			}
+		}
 		nClients := 2 + rng.Intn(2)
 		nUpd := 1 + rng.Intn(2)
 		perClient := 3 + rng.Intn(4)
 		var wg sync.WaitGroup
-		nextVal = 0
+		var cwg sync.WaitGroup
+		nextVal = 9 // written values start at 10: never the int32 (5) a wrongly-typed value converts to
+		stopPoll := make(chan struct{})
+		polled := make(chan struct{})
+		go func() {
+			defer close(polled)
+			for {
+				select {
+				case <-stopPoll:
+					return
+				case <-time.After(100 * time.Microsecond):
+					for _, ch := range churners {
+						ch.pump()
+					}
+				}
+			}
+		}()
+		for _, ch := range churners {
+			cwg.Add(1)
+			go func(ch *churner, crng *rand.Rand) {
+				defer cwg.Done()
+				n := crng.Intn(4)
+				for k := 0; k < n && !ch.dead; k++ {
+					time.Sleep(time.Duration(crng.Intn(700)) * time.Microsecond)
+					switch {
+					case !ch.reg:
+						ch.subscribe(id)
+					case crng.Intn(3) == 0:
+						ch.disconnect(&closing)
+						if !ch.dead {
+							uid := atomic.AddUint64(&nextUID, 1)
+							ch.mu.Lock()
+							ch.attach(w, id, uid)
+							ch.mu.Unlock()
+						}
+						atomic.AddInt32(&closesA, 1)
+					default:
+						ch.unsubscribe(id)
+					}
+					atomic.AddInt32(&movesA, 1)
+				}
+			}(ch, rand.New(rand.NewSource(rng.Int63())))
+		}
 		for ci := 0; ci < nClients; ci++ {
 			wg.Add(1)
 			go func(ci int, crng *rand.Rand) {
@@ -158,6 +311,9 @@ func c14Record(args []string) {
 			}(ui, rand.New(rand.NewSource(rng.Int63())))
 		}
 		wg.Wait()
+		cwg.Wait()
+		close(stopPoll)
+		<-polled
 		ops += (nClients + nUpd) * perClient
 		// every event sent so far is on the connection once the fence returns;
 		// give the generated channel T_BOUND to hand them over
@@ -171,10 +327,30 @@ func c14Record(args []string) {
 				lost++
 			}
 		}
+		for _, ch := range churners {
+			if ch.c != nil && !ch.dead {
+				if _, err := ch.aux.IsStatsEnabled(); err != nil {
+					hlib.Fatal("fence %s: %v", ch.name, err)
+				}
+				ch.pump()
+			}
+		}
 		log.put(map[string]interface{}{"k": "end"})
 		for _, s := range subs {
 			s.unsubscribe()
 			s.tap.close()
+		}
+		for _, ch := range churners {
+			if ch.c != nil {
+				if ch.reg {
+					ch.unregister(id)
+					ch.reg = false
+				}
+				ch.mu.Lock()
+				ch.tap.close()
+				ch.tap = nil
+				ch.mu.Unlock()
+			}
 		}
 		log.put(map[string]interface{}{"k": "reset"})
 		w.service.Remove(id)
@@ -182,6 +358,10 @@ func c14Record(args []string) {
 	for _, p := range gatePoints {
 		vhook.SetGate(p, nil)
 	}
+	vhook.SetGate("signal.update.send", nil)
+	moves, closes = int(atomic.LoadInt32(&movesA)), int(atomic.LoadInt32(&closesA))
+	res.SetExtra("c14_record_subscriber_moves", moves)
+	res.SetExtra("c14_record_disconnections", closes)
 	res.Evaluations = rounds
 	res.Distinct = rounds
 	res.SetExtra("c14_record_ops", ops)
